@@ -7,6 +7,7 @@ import (
 	"io"
 	"os"
 	"path/filepath"
+	"runtime/debug"
 	"sort"
 	"sync"
 
@@ -143,6 +144,31 @@ func (r *chanRun) l1(step int, p *Problem) bool {
 
 func isDry(err error) bool { return errors.Is(err, ErrDry) }
 
+// codePanic marks a panic raised inside a call into the code under test.
+type codePanic struct {
+	call string
+	val  any
+}
+
+// Guard runs one call into the code under test; a panic in it is re-raised as codePanic so that the
+// walk's recover can tell it from a bug of the harness.
+func Guard(call string, f func()) {
+	defer func() {
+		if p := recover(); p != nil {
+			panic(codePanic{call, p})
+		}
+	}()
+	f()
+}
+
+// CodePanic reports whether a recovered value comes from Guard, and describes it.
+func CodePanic(p any) (string, bool) {
+	if cp, ok := p.(codePanic); ok {
+		return fmt.Sprintf("panic in %s: %v", cp.call, cp.val), true
+	}
+	return "", false
+}
+
 // framesInFlightPT sums the plaintext carried by the frames in flight from index idx on.
 func (r *chanRun) ptOf(frameLen int) int {
 	n := frameLen - r.cfg.Scale.Prefix - r.cfg.Scale.Tag
@@ -156,12 +182,16 @@ func (r *chanRun) run() {
 	cfg, sc := r.cfg, r.cfg.Scale
 	w := r.walk
 	defer func() {
-		// a panic inside Read/Write of the code under test is an observable failure of the channel
 		if p := recover(); p != nil {
 			if r.sess == nil {
 				r.sess = &ChanSession{}
 			}
-			r.mismatch(len(r.log), cfg.Layer+"-panic", fmt.Sprintf("panic in the channel code: %v", p), "no panic", fmt.Sprint(p))
+			if cp, ok := p.(codePanic); ok {
+				// a panic inside Read/Write of the code under test is an observable failure of the channel
+				r.mismatch(len(r.log), cfg.Layer+"-panic", fmt.Sprintf("panic in %s: %v", cp.call, cp.val), "no panic", fmt.Sprint(cp.val))
+				return
+			}
+			r.mismatch(len(r.log), "MACHINERY", fmt.Sprintf("panic in the harness: %v\n%s", p, debug.Stack()), nil, nil)
 		}
 	}()
 	for _, st := range w.Steps {
@@ -190,8 +220,9 @@ func (r *chanRun) run() {
 	}
 	steps := 0
 	stop := false
+	diverged := false
 	for si, st := range w.Steps {
-		if stop {
+		if stop || diverged {
 			break
 		}
 		op := st.Op
@@ -207,7 +238,9 @@ func (r *chanRun) run() {
 			K := sc.WriteLen(k, r.mPT, r.pick, w.Walk, si)
 			before := wire.Framed()
 			beforeBytes := wire.Written
-			n, werr := sess.W.Write(r.led.Next(K))
+			var n int
+			var werr error
+			Guard(fmt.Sprintf("Write(%d bytes)", K), func() { n, werr = sess.W.Write(r.led.Next(K)) })
 			r.log = append(r.log, map[string]any{"op": "write", "k": k, "real": K, "n": n, "err": fmt.Sprint(werr)})
 			if r.l1(si, r.led.OnWrite(K, n, werr)) {
 				stop = true
@@ -236,8 +269,14 @@ func (r *chanRun) run() {
 			r.log = append(r.log, map[string]any{"op": "short", "k": op.I("k"), "real": c})
 			r.res.Case(fmt.Sprintf("short/%d", op.I("k")))
 		case "fault":
-			if !r.applyFault(si, op, prev) {
+			applied, abandon := r.applyFault(si, op, prev)
+			if !applied {
 				steps--
+			}
+			if abandon {
+				// the real wire no longer matches the model (an L2 divergence was noted): the fault cannot be placed
+				// as modelled, the rest of the walk is given up and the run is judged by the drain (L1)
+				diverged = true
 			}
 		case "read":
 			if !r.read(si, op, prev, next) {
@@ -250,7 +289,7 @@ func (r *chanRun) run() {
 		if sess.After != nil && op.Name() == "read" {
 			sess.After(r.lastFrame)
 		}
-		if cfg.Exact && sess.Proj != nil && !stop {
+		if cfg.Exact && sess.Proj != nil && !stop && !diverged {
 			r.project(si, op, next, cross)
 		}
 		prev = next
@@ -302,8 +341,12 @@ func (r *chanRun) read(si int, op vfh.Op, prev, next chanState) bool {
 		case "inplace", "pooled":
 			pt, ok := r.realPT[prev.Wire[0].N]
 			if !ok {
-				r.res.AddMismatch(vfh.Mismatch{Class: "MACHINERY", What: "no real frame for model nonce", Walk: r.walk.Walk, Step: si})
-				return false
+				// the writer chunked differently from the model (L2, noted at the write): take the real frame
+				if fl := wire.FrameLen(0); fl >= 0 {
+					pt = r.ptOf(fl)
+				} else {
+					pt = 1
+				}
 			}
 			q = pt
 			r.lastFrame = pt + sc.Tag
@@ -353,7 +396,9 @@ func (r *chanRun) read(si int, op vfh.Op, prev, next chanState) bool {
 	for i := 0; i < len(buf) && i < 64; i++ {
 		buf[i] = 0xEE
 	}
-	n, err := r.sess.R.Read(buf)
+	var n int
+	var err error
+	Guard(fmt.Sprintf("Read(%d bytes)", b), func() { n, err = r.sess.R.Read(buf) })
 	r.log = append(r.log, map[string]any{"op": "read", "path": path, "rel": rel, "real": b, "n": n, "err": fmt.Sprint(err)})
 	r.res.Case("read/" + path + "/" + rel + "/" + fmt.Sprint(op.B("err")) + "/" + fmt.Sprint(prev.Under))
 	if err != nil && isDry(err) && !r.led.Fault {
@@ -393,7 +438,7 @@ func (r *chanRun) read(si int, op vfh.Op, prev, next chanState) bool {
 	return true
 }
 
-func (r *chanRun) applyFault(si int, op vfh.Op, prev chanState) bool {
+func (r *chanRun) applyFault(si int, op vfh.Op, prev chanState) (applied, abandon bool) {
 	cfg, sc, wire := r.cfg, r.cfg.Scale, r.sess.Wire
 	kind, i, of := op.S("kind"), op.I("i"), op.I("of")
 	n := wire.NFrames()
@@ -402,7 +447,7 @@ func (r *chanRun) applyFault(si int, op vfh.Op, prev chanState) bool {
 		switch {
 		case n == 0:
 			r.res.Inc("faults_skipped_nothing_in_flight", 1)
-			return false
+			return false, false
 		case i == 1:
 			idx = 0
 		case i == of:
@@ -414,12 +459,12 @@ func (r *chanRun) applyFault(si int, op vfh.Op, prev chanState) bool {
 			idx = n - 2
 			if idx < 0 {
 				r.res.Inc("faults_skipped_nothing_in_flight", 1)
-				return false
+				return false, false
 			}
 		}
 	} else if n != of {
-		r.res.AddMismatch(vfh.Mismatch{Class: "MACHINERY", What: fmt.Sprintf("fault on frame %d of %d but %d real frames in flight", i, of, n), Walk: r.walk.Walk, Step: si})
-		return false
+		r.mismatch(si, "L2:"+cfg.Layer+"-wire", fmt.Sprintf("fault on frame %d of %d: %d real frames in flight", i, of, n), of, n)
+		return false, true
 	}
 	lens := wire.FrameLens()
 	behind := 0
@@ -469,13 +514,13 @@ func (r *chanRun) applyFault(si int, op vfh.Op, prev chanState) bool {
 	detail["errpos"] = pos
 	r.log = append(r.log, detail)
 	if !ok {
-		r.res.AddMismatch(vfh.Mismatch{Class: "MACHINERY", What: fmt.Sprintf("fault %v could not be applied", detail), Walk: r.walk.Walk, Step: si})
-		return false
+		r.mismatch(si, "L2:"+cfg.Layer+"-wire", fmt.Sprintf("fault %v does not fit the real frames in flight", detail), nil, lens)
+		return false, true
 	}
 	r.led.MarkFault(pos)
 	r.res.Case("fault/" + kind)
 	r.res.Inc("faults_"+kind, 1)
-	return true
+	return true, false
 }
 
 // drain reads everything still in flight with a large buffer and judges the end of the run.
@@ -492,7 +537,9 @@ func (r *chanRun) drain(si int) {
 		// without ever delivering a byte that is not the next one written
 		wire.CloseWrite()
 		for it := 0; it < 64; it++ {
-			n, err := r.sess.R.Read(buf)
+			var n int
+			var err error
+			Guard("Read (drain)", func() { n, err = r.sess.R.Read(buf) })
 			r.log = append(r.log, map[string]any{"op": "drain", "n": n, "err": fmt.Sprint(err)})
 			if r.l1(si, r.led.OnRead(buf, n, err, true)) {
 				return
@@ -508,7 +555,9 @@ func (r *chanRun) drain(si int) {
 	}
 	zero := 0
 	for it := 0; it < 4096 && r.led.Delivered < r.led.Written; it++ {
-		n, err := r.sess.R.Read(buf)
+		var n int
+		var err error
+		Guard("Read (drain)", func() { n, err = r.sess.R.Read(buf) })
 		r.log = append(r.log, map[string]any{"op": "drain", "n": n, "err": fmt.Sprint(err)})
 		if err != nil && isDry(err) {
 			break // nothing in flight any more: AtEnd judges
